@@ -9,7 +9,11 @@ unless it carries a valid signature of a configured administrator key over its b
    administrator's key with someone else's signature, a flipped signature byte, an empty signature, an
    administrator's signature over ANOTHER body, the server's own key, and correct signatures of both configured
    keys - refusal classes first, then the authorised ones, then (where the effect is synchronous) the refusal
-   classes again. Effects: dependency calls, digest of the engine state (shard modes, object status per shard,
+   classes again; the same for bodies that are filled in but marshal to ZERO bytes (empty shard / address lists,
+   status UNDEFINED: the signature then covers the empty string) and with random bytes instead of a signature.
+   Replay sequences on ONE server instance: a correctly signed request of method A, then its signature with the
+   administrator's key attached to requests of every method / body (authorised only when the signed bytes are
+   identical - the signature covers the body, not the method). Effects: dependency calls, digest of the engine state (shard modes, object status per shard,
    listing), created files, produced response.
 3. TLC judges the recorded events: C32_NoSideEffectUnlessAuthorised, C32_RejectedUnlessAuthorised
    (Strict = FALSE) and the trace must be a behaviour of the model (Strict = TRUE)."""
@@ -20,7 +24,14 @@ import rpc_util
 import vkit
 
 LEVEL = "exploration"
-REFUSAL = {"none", "wrongkey", "keymismatch", "badsig", "emptysig"}
+REFUSAL = {"none", "wrongkey", "keymismatch", "badsig", "emptysig", "garbage"}
+
+
+def src_of(calls, c):
+    """The correctly signed call whose signature call c replays (same world: the nearest preceding `valid` call of that method)."""
+    m, v = c["cls"]["of"].split("#")
+    prev = [x for x in calls if x["i"] < c["i"] and x["cls"]["srv"] == c["cls"]["srv"] and x["cls"]["m"] == m and x["cls"].get("var", "") == v and x["cls"]["sig"] == "valid"]
+    return prev[-1]["cls"]
 
 
 def run(ck):
@@ -43,13 +54,19 @@ def run(ck):
     if not ck.replay:
         per = {}
         for c in calls:
-            per.setdefault(c["m"], {}).setdefault(c["cls"]["sig"], []).append(c)
+            per.setdefault(c["m"] + ("#zero" if c["cls"].get("var") == "zero" else ""), {}).setdefault(c["cls"]["sig"], []).append(c)
         if len(per) < 16:
             raise vkit.Infra("only %d control methods were called" % len(per))
+        nrep = [c for c in calls if c["cls"]["sig"] == "replay"]
+        if len(nrep) < 20 or not any(c["events"][0]["auth"] for c in nrep) or sum(1 for c in nrep if not c["events"][0]["auth"]) < 10 \
+                or not any(c["cls"]["srv"] == "ir" for c in nrep):
+            raise vkit.Infra("replay sequences are missing / one-sided (%d)" % len(nrep))
+        if sum(1 for c in calls if c["cls"].get("var") == "zero" and c["cls"]["sig"] in ("garbage", "badsig", "emptysig", "keymismatch")) < 12:
+            raise vkit.Infra("zero-length-body refusal classes are missing")
         for m, by in per.items():
             if not REFUSAL <= set(by):
                 raise vkit.Infra("refusal classes %s missing for %s" % (sorted(REFUSAL - set(by)), m))
-            if methods.get(m) == "modelled":
+            if methods.get(m.split("#")[0]) == "modelled":
                 auth = by.get("valid", []) + by.get("valid2", [])
                 if not auth:
                     raise vkit.Infra("no authorised call of %s" % m)
@@ -68,11 +85,11 @@ def run(ck):
         c = f["call"]
         ck.violation("C32: %s signed as [%s]: invariant %s false after event #%d %s; call events: %s" % (
             c["m"], c["cls"]["sig"], f["invariant"], f["event_index"], json.dumps(f["event"]), json.dumps(c["events"])),
-            {"calls": [c["cls"]], "events": c["events"], "invariant": f["invariant"], "tlc": f["tlc"]})
+            {"calls": ([src_of(calls, c)] if c["cls"]["sig"] == "replay" else []) + [c["cls"]], "events": c["events"], "invariant": f["invariant"], "tlc": f["tlc"]})
 
     ck.setcov("traces_validated_against_impl", len(calls))
     ck.setcov("evaluations", len(calls))
-    ck.setcov("distinct_nontrivial", len({(c["m"], c["cls"]["sig"]) for c in calls}))
+    ck.setcov("distinct_nontrivial", len({(c["m"], c["cls"]["sig"], c["cls"].get("var"), c["cls"].get("of")) for c in calls}))
     ck.setcov("rule", "Control!C32_NoSideEffectUnlessAuthorised and C32_RejectedUnlessAuthorised evaluated by TLC in every state of the recorded trace of every call; "
                       "the trace must also be a behaviour of the model (Strict)")
     ck.setcov("trace_events", sum(len(c["events"]) for c in calls))
